@@ -233,6 +233,7 @@ fn gen_base(rng: &mut Rng) -> ConnScenario {
         wplan: vec![],
         cap_ns: secs(1200),
         prelude: vec![],
+        growth: None,
     }
 }
 
